@@ -20,6 +20,7 @@ def cases(tier):
         o = dict(sublimit=lim, callbacks=['guard', 'life', 'select'], act=['guard'], kinds=0x9e)
         fx = fixture('C04', fam, o, tag='lim%d' % lim)
         L.append(fsm_case('C04', fx, 'imm1_limit%d' % lim, ['P_C04', 'MON_GUARD', 'CB_KINDS=0x9e', 'CB_BUDGET=%d' % lim, 'ENTRY=2', 'KIND=1'], timeout=1200 * T, witness=False, budget=1))
+    mark_cover(L, ['c04.f5.imm1', 'c04.foroot.imm1'])
     return L
 
 def run(tier, seed):
